@@ -492,6 +492,33 @@ pub fn critical_square_near_misses() -> Vec<(&'static str, Position)> {
                     }
                 }
             }
+            // the side NOT to move is in check by a slider whose line passes exactly through the
+            // (empty) e.p. target square - along the target's rank and both diagonals
+            for (dx, dy) in [(1, 0), (1, 1), (1, -1)] {
+                for (a, b) in [(1, 1), (1, 2), (2, 1), (2, 3), (3, 2)] {
+                    for swap in [false, true] {
+                        let (ka, sa) = if swap { (-(a as i32), b as i32) } else { (a as i32, -(b as i32)) };
+                        let (kx, ky) = (f + dx * ka, target + dy * ka);
+                        let (sx, sy) = (f + dx * sa, target + dy * sa);
+                        if !on_board(kx, ky) || !on_board(sx, sy) {
+                            continue;
+                        }
+                        let mut q = base.clone();
+                        for s in 0..64usize {
+                            if q.board[s] == Some((opp, Kind::K)) {
+                                q.board[s] = None;
+                            }
+                        }
+                        if q.board[sq(kx, ky) as usize].is_some() || q.board[sq(sx, sy) as usize].is_some() {
+                            continue;
+                        }
+                        q.board[sq(kx, ky) as usize] = Some((opp, Kind::K));
+                        let slider = if dy == 0 { if (a + b) % 2 == 0 { Kind::R } else { Kind::Q } } else if (a + b) % 2 == 0 { Kind::B } else { Kind::Q };
+                        q.board[sq(sx, sy) as usize] = Some((turn, slider));
+                        out.push(("opponent-in-check-through-ep-target", q));
+                    }
+                }
+            }
             // a king on the target square
             for c in [turn, opp] {
                 let mut q = base.clone();
